@@ -82,11 +82,54 @@ def ts_datetime(us: int) -> datetime.datetime:
     return EPOCH + datetime.timedelta(microseconds=us)
 
 
+# -- daylight-saving schedules -------------------------------------------------------------
+#
+# "same timestamp" must hold wherever the run's clock stands relative to the zone's DST switches - also when that is a
+# different DST period than the moment the logging module was imported.  Zones are POSIX TZ strings (no tzdata needed);
+# the instants are given in UTC, the period each lies in is stated by hand from the rule in the string.
+
+
+def _utc_us(y: int, mo: int, d: int, h: int, mi: int, sec: int, us: int = 0) -> int:
+    delta = datetime.datetime(y, mo, d, h, mi, sec, us, tzinfo=datetime.timezone.utc) - EPOCH
+    return (delta.days * 86400 + delta.seconds) * 1_000_000 + delta.microseconds
+
+
+DST_ZONES: dict[str, tuple[str, list[tuple[str, str, int]]]] = {
+    # central Europe 2024: daylight time from 03-31 01:00 UTC to 10-27 01:00 UTC
+    "CET": (
+        "CET-1CEST,M3.5.0,M10.5.0/3",
+        [
+            ("january", "standard-time", _utc_us(2024, 1, 15, 12, 0, 0, 1)),
+            ("last-instant-before-spring-switch", "standard-time", _utc_us(2024, 3, 31, 0, 59, 59, 999_999)),
+            ("first-instant-after-spring-switch", "daylight-time", _utc_us(2024, 3, 31, 1, 0, 0)),
+            ("july", "daylight-time", _utc_us(2024, 7, 15, 12, 0, 0, 500_000)),
+            ("autumn-0230-local-first-pass", "daylight-time", _utc_us(2024, 10, 27, 0, 30, 0)),
+            ("autumn-0230-local-second-pass", "standard-time", _utc_us(2024, 10, 27, 1, 30, 0)),
+            ("december", "standard-time", _utc_us(2024, 12, 1, 8, 0, 0, 123_456)),
+        ],
+    ),
+    # south-east Australia 2024: daylight time until 04-06 16:00 UTC and from 10-05 16:00 UTC
+    "AEST": (
+        "AEST-10AEDT,M10.1.0,M4.1.0/3",
+        [
+            ("january", "daylight-time", _utc_us(2024, 1, 15, 12, 0, 0, 1)),
+            ("autumn-0230-local-first-pass", "daylight-time", _utc_us(2024, 4, 6, 15, 30, 0)),
+            ("autumn-0230-local-second-pass", "standard-time", _utc_us(2024, 4, 6, 16, 30, 0)),
+            ("july", "standard-time", _utc_us(2024, 7, 15, 12, 0, 0, 500_000)),
+            ("last-instant-before-spring-switch", "standard-time", _utc_us(2024, 10, 5, 15, 59, 59, 999_999)),
+            ("first-instant-after-spring-switch", "daylight-time", _utc_us(2024, 10, 5, 16, 0, 0)),
+            ("december", "daylight-time", _utc_us(2024, 12, 1, 8, 0, 0, 123_456)),
+        ],
+    ),
+}
+DEFAULT_TZ = "XXX-05:30"  # fixed offset, no DST: the zone of every other family
+
+
 # a record spec is a JSON-able 4-tuple (level name, tags index, text key, with exception trace)
 RecSpec = tuple[str, int, str, bool]
 
 
-def ref_record(spec: RecSpec, position: int, t0_us: int = 0) -> dict[str, Any]:
+def ref_record(spec: RecSpec, position: int, t0_us: int = 0, times_us: list[int] | None = None) -> dict[str, Any]:
     level, tags_i, text_k, exc = spec
     return {
         "text": TEXTS[text_k],
@@ -94,15 +137,15 @@ def ref_record(spec: RecSpec, position: int, t0_us: int = 0) -> dict[str, Any]:
         "levelno": LEVEL_NO[level],
         "prio": PRIO_OF_LEVEL[level],
         "tags": TAGS[tags_i],
-        "ts_us": ts_us(position, t0_us),
+        "ts_us": ts_us(position, t0_us) if times_us is None else times_us[position],
         "exc": exc,
     }
 
 
-def ref_log(specs: list[RecSpec], file_level: str = "TRACE", t0_us: int = 0) -> list[dict[str, Any]]:
+def ref_log(specs: list[RecSpec], file_level: str = "TRACE", t0_us: int = 0, times_us: list[int] | None = None) -> list[dict[str, Any]]:
     """the records a run logs into the file: those at or above the file level, in call order."""
     floor = LEVEL_NO[file_level]
-    return [r for i, s in enumerate(specs) if (r := ref_record(s, i, t0_us))["levelno"] >= floor]
+    return [r for i, s in enumerate(specs) if (r := ref_record(s, i, t0_us, times_us))["levelno"] >= floor]
 
 
 # -- file variants ---------------------------------------------------------------------
